@@ -1,5 +1,5 @@
 (* Proofs for Model/C12_Resume.v *)
-From Coq Require Import List String Bool ZArith Lia.
+From Coq Require Import List String Bool ZArith Lia FinFun.
 Import ListNotations.
 From NessaiV Require Import Model.C12_Resume.
 
@@ -203,3 +203,40 @@ Lemma floor_batches_refuted :
   exists (l : list nat), batch_eval 0 (fun x => x + 100) (fun _ => 0) (plan_of (FloorBatches 2) (List.length l)) l
                          <> map (fun x => x + 100) l.
 Proof. exists [1; 2; 3; 4; 5]. vm_compute. discriminate. Qed.
+
+(* ---- the legs of a resumed run never replay each other's random stream ---------------------------------- *)
+Lemma seeding_ok_no_reseed : forall effs, seeding_ok effs = true -> existsb is_reseed effs = false.
+Proof.
+  induction effs as [|e r IH]; simpl; intro H; [reflexivity|].
+  apply andb_prop in H. destruct H as [H1 H2]. destruct e; simpl in *; [now apply IH|discriminate].
+Qed.
+
+Theorem seeding_sound : forall effs, seeding_ok effs = true ->
+  forall seed (legs : list (nat * nat)), NoDup (map fst legs) -> NoDup (run_draws effs seed legs).
+Proof.
+  intros effs H seed legs. unfold run_draws, leg_draws. rewrite (seeding_ok_no_reseed effs H).
+  induction legs as [|[e n] r IH]; simpl; intro Hn; [constructor|].
+  inversion Hn as [|x l Hnot Hr]; subst.
+  assert (N1 : NoDup (map (fun k => (e, k)) (seq 0 n))).
+  { apply FinFun.Injective_map_NoDup; [|apply seq_NoDup]. intros a b E. now inversion E. }
+  assert (Dis : forall p, In p (map (fun k => (e, k)) (seq 0 n)) ->
+                          ~ In p (flat_map (fun leg => map (fun k => (fst leg, k)) (seq 0 (snd leg))) r)).
+  { intros p Hp Hq. apply in_map_iff in Hp. destruct Hp as (k & Ek & _). subst p.
+    apply in_flat_map in Hq. destruct Hq as ([e' n'] & Hin & Hk). simpl in Hk.
+    apply in_map_iff in Hk. destruct Hk as (k' & Ek' & _). inversion Ek'; subst.
+    apply Hnot. apply in_map_iff. exists (e, n'). split; [reflexivity|exact Hin]. }
+  clear Hnot Hn. specialize (IH Hr).
+  induction (map (fun k => (e, k)) (seq 0 n)) as [|p ps IHp]; simpl; [exact IH|].
+  inversion N1; subst. constructor.
+  - intro Hin. apply in_app_or in Hin. destruct Hin as [Hin|Hin]; [contradiction|].
+    exact (Dis p (or_introl eq_refl) Hin).
+  - apply IHp; [assumption|]. intros q Hq. apply Dis. now right.
+Qed.
+
+(* seeding the generators from the pickled seed on every resume: two legs draw the same values *)
+Lemma reseeding_refuted : exists legs, NoDup (map fst legs) /\ ~ NoDup (run_draws [SReseed] 1 legs).
+Proof.
+  exists [(10, 1); (11, 1)]. split.
+  - repeat constructor; simpl; intuition discriminate.
+  - intro H. vm_compute in H. inversion H as [|x l Hn _]; subst. apply Hn. now left.
+Qed.
